@@ -16,4 +16,5 @@ Stacks == << <<>>, <<112>> >>
 BpCands == {104, 204, 116}
 Entry == {50}
 ExitCode == 0
+TailPos == 9
 ====
